@@ -15,7 +15,7 @@ CONSTANTS
   FaultKinds <- NoFaults
   FinFirst = TRUE
   RvCheck = FALSE
-  FixDeleting = FALSE
+  FixDeleting = TRUE
   FixMiss = FALSE
   FixStale = FALSE
 VIEW view
